@@ -1227,13 +1227,16 @@ class Series(ContainerOperand):
         Args:
             dtype: not used, part of signature for a common interface
         '''
-        return ufunc_axis_skipna(
+        post = ufunc_axis_skipna(
                 array=self.values,
                 skipna=skipna,
                 axis=0,
                 ufunc=ufunc,
                 ufunc_skipna=ufunc_skipna
                 )
+        if post.__class__ is np.ndarray: # an object Series holding arrays or containers can reduce to an array
+            post.flags.writeable = False
+        return post
 
     def _ufunc_shape_skipna(self, *,
             axis: int,
